@@ -792,7 +792,21 @@ encodeSide:
 			}
 		})
 		if hc == nil {
-			r.fail(key, p.Pos(ef.Pos()), "the block is never hashed on the encode side")
+			// computed in a helper of encode? then the flow of its result into the header write is not followed here
+			reloc := false
+			for _, h := range p.helperClosure(ef) {
+				eachInstr(h, func(i ssa.Instruction) {
+					if hashCallOn(i, hf) != nil {
+						reloc = true
+					}
+				})
+			}
+			if reloc {
+				nHash++
+				r.info(key+": the block hash is computed in a helper of encode; the clause 'the hash of the original block is what is written' is NOT DECIDED on this tree (relocated code)", p.Pos(ef.Pos()))
+			} else {
+				r.fail(key, p.Pos(ef.Pos()), "the block is never hashed on the encode side")
+			}
 			continue
 		}
 		nHash++
